@@ -236,23 +236,27 @@ def runModel (st : St) (q : Stmt) (having : List HTok) : String :=
         match hv with
         | .error _ => "err"
         | .ok rows =>
+          -- a key column that mixes kinds of values before the cut: the comparison is not an order, nothing is promised
+          -- about the sequence (marker mk=1, as in the reference)
+          let mixedKey := q.orderBy.any fun (k, _) => (dedupNat (t.rows.map fun r => cellKind ((r.get k).getD .null))).length > 1
+          let mark := fun (s : String) => if mixedKey then s.replace "ok cols=" "ok mk=1 cols=" else s
           if rows.isEmpty then
             (if (dedup q.outputBindings).length != q.outputBindings.length then "err"
              else showTable q.outputBindings [] false)
           else
             let cols := if q.groupBy.isEmpty then t.bindings else dedup q.outputBindings
             if q.orderBy.isEmpty then showTable cols rows false
-            else showTable cols (canonTies S q.orderBy cols rows) true
+            else mark (showTable cols (canonTies S q.orderBy cols rows) true)
 
 /-- A predicate bounded by bindings ("id"@[?lo,?hi]) is only given a meaning when every row that reaches
     the clause holds a time for those bindings (the engine reports an error otherwise). -/
-def boundsUndefined (scan : List Triple) (glo ghi : Option Int) (cs : List Clause) : Bool :=
+def boundsUndefined (solsOf : List Clause → List Row) (cs : List Clause) : Bool :=
   (List.range cs.length).any fun i =>
     match cs[i]? with
     | none => false
     | some c =>
       (c.pLowerAlias ≠ [] || c.pUpperAlias ≠ [] || c.oLowerAlias ≠ [] || c.oUpperAlias ≠ []) &&
-      (solutionsO scan glo ghi (cs.take i)).any fun r =>
+      (solsOf (cs.take i)).any fun r =>
         (c.pLowerAlias ≠ [] && (rowTime r c.pLowerAlias).isNone) || (c.pUpperAlias ≠ [] && (rowTime r c.pUpperAlias).isNone) ||
         (c.oLowerAlias ≠ [] && (rowTime r c.oLowerAlias).isNone) || (c.oUpperAlias ≠ [] && (rowTime r c.oUpperAlias).isNone)
 
@@ -270,7 +274,6 @@ def runSpec (st : St) (q : Stmt) (having : List HTok) : String :=
     | .ok fs =>
     if fs.any (fun p => p.2.op == .latest) then "unsupported" else
     let scan : List Triple := gs.flatMap fun g => g.master.filterMap fun v => st.triple v.id
-    if boundsUndefined scan (q.lower.map (·.nanos)) (q.upper.map (·.nanos)) q.clauses then "unsupported" else
     let keeps : Clause → Triple → Bool := fun c t =>
       match filterForOf fs c with
       | none => true
@@ -283,8 +286,11 @@ def runSpec (st : St) (q : Stmt) (having : List HTok) : String :=
          | .isTemporal => kind == some true
          | .isImmutable => kind == some false
          | _ => true)
-    let sols := q.clauses.foldl (fun rows c =>
+    let solsOf : List Clause → List Row := fun cs => cs.foldl (fun rows c =>
       joinClauseO (scan.filter (keeps c)) (q.lower.map (·.nanos)) (q.upper.map (·.nanos)) rows c) [[]]
+    -- (the rows that reach a clause bounded by bindings are those the FILTERed clauses before it let through)
+    if boundsUndefined solsOf q.clauses then "unsupported" else
+    let sols := solsOf q.clauses
     let cols := dedup q.outputBindings
     let staged : Except QErr (List Row) :=
       if q.groupBy.isEmpty then .ok (sols.map (project q.projs)) else groupReduceWith sumExact S floatAddBits q sols
